@@ -162,8 +162,17 @@ def make_args(sc):
         return [x, out, nch, ns], [1], [(out.astype(np.float64) + X.sum(0)).astype(np.float32)]
     if k == "mask_channels":
         m = r.integers(0, 2, size=nch).astype(bool)
+        if int(sc["dseed"]) % 3 == 0:  # a single flagged channel (fewer flagged channels than threads)
+            m[:] = False
+            m[int(r.integers(0, nch))] = True
         ref = x.reshape(ns, nch).copy()
         ref[:, m] = 3
+        slack = int(sc.get("slack") or 0)
+        if slack:
+            # the kernel is told nsamps; the buffer it is handed is LONGER (a pre-allocated / ring buffer partly filled):
+            # what lies beyond nsamps spectra is somebody else's live data and must stay as it is
+            tail = r.integers(4, 16, size=slack * nch).astype(dt)
+            return [np.concatenate([x, tail]), m, dt(3), nch, ns], [0], [np.concatenate([ref.ravel(), tail])]
         return [x, m, dt(3), nch, ns], [0], [ref.ravel()]
     if k in ("dedisperse", "subband"):
         md = min(sh.get("maxdelay", 0), ns - 1)
@@ -213,6 +222,8 @@ def generate(rng, tier) -> dict:
     if rng.random() < 0.12 and (k in NONFINITE_OK or k.startswith("downsample_1d")):
         sc["nonfinite"] = True
         sc["dtype"] = "f4"
+    if k == "mask_channels" and rng.random() < 0.4:
+        sc["slack"] = rng.choice([1, 2, 5, 37])  # spectra beyond nsamps in the buffer handed to the kernel
     if compiled:
         sc["mode"] = "compiled"
         sc["shape"] = big_shape(k, rng) if rng.random() < 0.5 else gen_shape(k, rng)
@@ -380,6 +391,8 @@ def execute(sc, ctx) -> None:
         ctx.probe("extreme-aspect-ratio:" + sc["mode"])
     if sc.get("nonfinite"):
         ctx.probe("blanked-stretches(NaN/inf):" + sc["mode"])
+    if sc.get("slack") and k == "mask_channels":
+        ctx.probe("buffer-longer-than-nsamps:" + sc["mode"])
     ctx.sig += [k, sc["mode"], sc.get("dtype")]
     if sc["mode"] == "sim":
         sch = sc["schedule"]
